@@ -324,6 +324,8 @@ class Interp:
             return list(v.keys())
         if isinstance(v, AObj) and 'data' in v.attrs:
             return list(v.attrs['data'].keys())
+        if isinstance(v, AObj) and 'nodes' in v.attrs and isinstance(v.attrs['nodes'], (dict, list, tuple, set)):
+            return self._to_list(v.attrs['nodes'])            # iterating a graph yields its nodes
         raise AnalysisError(f'abstract interpretation: iteration over {v!r}')
 
     def call_ext(self, f: AExt, args, kwargs):
@@ -663,17 +665,24 @@ class Interp:
                     kwargs[k.arg] = self.eval(k.value, env)
             return self.call(f, args, kwargs, e)
         if isinstance(e, ast.BoolOp):
+            # an unknown operand is decided once: the chosen outcome replaces it (no second, inconsistent choice)
             if isinstance(e.op, ast.And):
                 v = True
                 for x in e.values:
                     v = self.eval(x, env)
-                    if not self.truth(v):
+                    tv = self.truth(v)
+                    if v is TOP:
+                        v = tv
+                    if not tv:
                         return v
                 return v
             v = False
             for x in e.values:
                 v = self.eval(x, env)
-                if self.truth(v):
+                tv = self.truth(v)
+                if v is TOP:
+                    v = tv
+                if tv:
                     return v
             return v
         if isinstance(e, ast.UnaryOp) and isinstance(e.op, ast.Not):
